@@ -12,6 +12,8 @@ package c10
 import (
 	"encoding/json"
 	"fmt"
+	"os/signal"
+	"syscall"
 	"testing"
 	"time"
 
@@ -42,6 +44,8 @@ type Read struct {
 //	fail     K>0: the next K GetChunk calls fail; K==0: every call fails until heal
 //	heal     stop failing every call
 //	drop/put remove / put back chunk number Chunk in the store (ChunkMissing)
+//	wread    read R while the cache file cannot grow/be written at or beyond the start of chunk Chunk plus Arg bytes
+//	         (RLIMIT_FSIZE lowered for the duration of the read: "disk full" for the copy-on-read write)
 type Op struct {
 	Kind    string `json:"op"`
 	R       *Read  `json:"r,omitempty"`
@@ -250,7 +254,7 @@ func genCase(t *rapid.T) Case {
 	step := rapid.Custom(func(t *rapid.T) []Op {
 		var ops []Op
 		kind := rapid.SampledFrom([]string{"read", "read", "read", "read", "read", "read", "read", "read", "read",
-			"conc", "conc", "conc", "save", "save", "restart", "restart", "restart", "preload", "fail", "fail", "heal", "drop"}).Draw(t, "op")
+			"conc", "conc", "conc", "save", "save", "restart", "restart", "restart", "preload", "fail", "fail", "heal", "drop", "wread"}).Draw(t, "op")
 		switch kind {
 		case "read":
 			var r Read
@@ -287,6 +291,25 @@ func genCase(t *rapid.T) Case {
 				op.Reads = append(op.Reads, r)
 			}
 			ops = append(ops, op)
+		case "wread":
+			// the copy-on-read write of one chunk fails (at its start, one byte in, half way), the read covers it;
+			// the same range is read again afterwards, with writes working
+			if len(spans) == 0 {
+				break
+			}
+			k := rapid.IntRange(0, len(spans)-1).Draw(t, "wchunk")
+			s := spans[k]
+			d := rapid.SampledFrom([]int{0, 0, 1, int(s.Len) / 2}).Draw(t, "wdelta")
+			r := Read{H: rapid.IntRange(0, 2).Draw(t, "h"), Off: int64(s.Start) + int64(rapid.IntRange(-1, 1).Draw(t, "wd")), Len: int(s.Len) + rapid.IntRange(0, 2).Draw(t, "wl"),
+				Node: rapid.IntRange(0, 4).Draw(t, "node") < 2}
+			if r.Off < 0 {
+				r.Off = 0
+			}
+			prev = append(prev, r)
+			ops = append(ops, Op{Kind: "wread", R: &r, Chunk: k, Arg: d})
+			r2 := r
+			r2.H = rapid.IntRange(0, 2).Draw(t, "h2")
+			ops = append(ops, Op{Kind: "read", R: &r2})
 		case "save":
 			ops = append(ops, Op{Kind: "save", Arg: rapid.IntRange(0, 1).Draw(t, "close")})
 		case "restart":
@@ -357,7 +380,7 @@ var spec = &hx.Spec[Case]{
 	Level: "exploration",
 	Rule: "cases = (blob incl. null chunks/empty/one chunk, chunking by reference chunker or arbitrary tiling, store with generated transient GetChunk failures of generated error kinds and missing chunks, " +
 		"history of ReadAt on several handles incl. zero-length and at/past-the-end reads, concurrent read batches with perturbation at sparse.fetched, WriteState, " +
-		"restarts with state file kept/deleted/earlier save/garbage/wrong length x cache file kept/deleted/truncated/extended, restarts with pre-load n=1..4, reads through the go-fuse node); " +
+		"restarts with state file kept/deleted/earlier save/garbage/wrong length x cache file kept/deleted/truncated/extended, restarts with pre-load n=1..4, reads through the go-fuse node, reads during which the cache file cannot be written at/behind a chosen chunk (RLIMIT_FSIZE lowered around the read) followed by the same read with writes working); " +
 		"non-trivial = some read touched a chunk whose earlier fetch failed, or ran concurrently with another read of the same not-yet-loaded chunk, or followed a restart that " +
 		"found a matching non-empty saved state; distinct by the full case (history included)",
 	Assumptions: []string{
@@ -374,7 +397,7 @@ var spec = &hx.Spec[Case]{
 		"restart:cache=kept", "restart:cache=deleted", "restart:cache=truncated", "restart:cache=extended",
 		"restart:state-matches-nonempty", "read:after-restart-with-state", "preload", "preload:marked>0", "preload:fault-delivered", "mount", "fault-delivered", "chunk-missing",
 		"fault-kind:plain", "fault-kind:wraps-EOF", "fault-kind:fmt-wraps-EOF", "fault-kind:pkg-wraps-EOF", "fault-kind:url-wraps-EOF",
-		"fault-kind:unexpected-EOF", "fault-kind:chunk-missing", "fault-kind:chunk-invalid",
+		"fault-kind:unexpected-EOF", "fault-kind:chunk-missing", "fault-kind:chunk-invalid", "wread", "wread:fetched-under-limit", "wread:error",
 		"node-read:fetch-failed:wraps-EOF", "node-read:fetch-failed:plain", "node-read:fetch-failed:reported",
 		"handle-read:fetch-failed:wraps-EOF", "handle-read:fetch-failed:plain"},
 	Gen:      genCase,
@@ -383,7 +406,10 @@ var spec = &hx.Spec[Case]{
 	Watchdog: 60 * time.Second,
 }
 
-func TestMain(m *testing.M) { hx.Main(m) }
+func TestMain(m *testing.M) {
+	signal.Ignore(syscall.SIGXFSZ) // a write beyond RLIMIT_FSIZE returns EFBIG instead of ending the process (op wread)
+	hx.Main(m)
+}
 
 func TestRegress(t *testing.T) { hx.Regress(t, spec) }
 func TestKnown(t *testing.T)   { hx.Known(t, spec) }
